@@ -75,6 +75,7 @@ Init == /\ cands \in {f \in [Cmds -> (SUBSET Nodes) \ {{}}] : "n1" \in f["A"]}
         /\ now = 0 /\ faults = 0 /\ restarts = 0 /\ h = <<>>
 
 Hist(e) == h' = IF Gen THEN Append(h, e) ELSE h
+SetToSeq(S) == LET RECURSIVE f(_) f(X) == IF X = {} THEN <<>> ELSE LET x == CHOOSE y \in X : TRUE IN <<x>> \o f(X \ {x}) IN f(S)
 Ev(a, k, x, f) == [a |-> a, k |-> k, x |-> x, f |-> f]
 FaultOK(f) == f \in {"ok", "fail"} /\ (f = "fail" => faults < MaxFaults)
 Charge(f) == faults' = IF f = "fail" THEN faults + 1 ELSE faults
@@ -193,7 +194,7 @@ Observe(k, f) ==
                                           ![k].latched = IF f = "ok" /\ ready THEN @ \cup {i} ELSE @]
                     /\ UNCHANGED <<qmap, g>>
     /\ UNCHANGED <<cands, need, rs, node, clean, now, restarts>>
-    /\ Hist(Ev("Observe", k, ToString(cmd[k].oi), f))
+    /\ Hist(Ev("Observe", k, ToString(cmd[k].oi), IF cmd[k].oi \in cmd[k].latched THEN "skip" ELSE f))
 
 EndObserve(k) ==
     /\ cmd[k].pc = "rec" /\ cmd[k].oi > need[k]
@@ -368,5 +369,10 @@ Live_C08_RolledBack_T ==
     \A k \in Cmds : [](((g[k].failure # "none" /\ cmd[k].pc \in Terminal) \/ cmd[k].pc = "lost") =>
                         <>(\A n \in cands[k] : n \notin Free \/ InService(node[n])))
 
-GenPrint == (Len(h) < MaxLen /\ ENABLED Next) \/ PrintT(<<"BEH", ToJson([cands |-> cands, need |-> need, h |-> h])>>)
+\* a generated behaviour: the scenario, the history, and what the model expects at its end (compared with the real run
+\* as MODEL-DRIFT notes only - never a verdict)
+GenPrint == (Len(h) < MaxLen /\ ENABLED Next) \/
+            PrintT(<<"BEH", ToJson([cands |-> [k \in Cmds |-> SetToSeq(cands[k])], need |-> need, h |-> h,
+                                    pc |-> [k \in Cmds |-> cmd[k].pc],
+                                    deleted |-> [n \in Nodes |-> node[n].deleting]])>>)
 =============================================================================
